@@ -155,11 +155,37 @@ func propC12Aggregates(t *rapid.T) {
 	old := runtime.GOMAXPROCS(rapid.SampledFrom([]int{1, 2, 4, 16}).Draw(t, "GOMAXPROCS"))
 	defer runtime.GOMAXPROCS(old)
 	bs, ms, desc := parList(t)
+	// schedule perturbation through the verif hook: a generated table says what happens at each
+	// scheduling point of the library's parallel code (nothing / yield / several yields / a short sleep)
+	table := make([]int, 24)
+	tdesc := ""
+	if rapid.Bool().Draw(t, "perturb") {
+		for i := range table {
+			table[i] = rapid.IntRange(0, 7).Draw(t, "site")
+		}
+		tdesc = fmt.Sprintf(" yieldtable=%v", table)
+	}
+	hook := func(site int) {
+		switch table[site%len(table)] {
+		case 4:
+			runtime.Gosched()
+		case 5:
+			for i := 0; i < 5; i++ {
+				runtime.Gosched()
+			}
+		case 6:
+			time.Sleep(20 * time.Microsecond)
+		case 7:
+			time.Sleep(300 * time.Microsecond)
+		}
+	}
+	roaring.VerifYieldHook, roaring64.VerifYieldHook = hook, hook
+	defer func() { roaring.VerifYieldHook, roaring64.VerifYieldHook = nil, nil }()
 	fn := rapid.SampledFrom([]string{"ParOr", "ParHeapOr", "ParAnd", "ParOr64"}).Draw(t, "fn")
 	workers := rapid.SampledFrom([]int{0, 1, 2, 3, 8, 16}).Draw(t, "workers")
 	reps := rapid.IntRange(1, 3).Draw(t, "reps")
 	base := runtime.NumGoroutine()
-	what := fmt.Sprintf("%s(%d) over %d bitmaps, %s", fn, workers, len(bs), desc)
+	what := fmt.Sprintf("%s(%d) over %d bitmaps, %s%s", fn, workers, len(bs), desc, tdesc)
 	keys := map[uint16]int{}
 	for _, m := range ms {
 		for _, k := range m.Keys16() {
